@@ -357,6 +357,34 @@ func vhDiff(a, b any) string {
 	return ds[0].String()
 }
 
+// vhHasher caches hashes of (read-only) reference cells; used only as a fast path to EQUALITY of two cell views.
+var vhHasher = boc.NewHasher()
+
+// vhSameView: fast positive check that two cell views are equal: same type, same remaining bits, and the remaining
+// references pairwise have the same representation hash. A negative answer is not trusted (the caller then compares
+// the rendered trees).
+func vhSameView(a, b *boc.Cell) bool {
+	if a.CellType() != b.CellType() {
+		return false
+	}
+	ab, ar := vhCellRemaining(a)
+	bb, br := vhCellRemaining(b)
+	if ab != bb || len(ar) != len(br) {
+		return false
+	}
+	for i := range ar {
+		if ar[i] == br[i] {
+			continue
+		}
+		ha, err1 := vhHasher.HashString(ar[i])
+		hb, err2 := vhHasher.HashString(br[i])
+		if err1 != nil || err2 != nil || ha != hb {
+			return false
+		}
+	}
+	return true
+}
+
 // vhDelta is one difference found by vhDiffAll: where, the Go type of the differing node, and the original node.
 type vhDelta struct {
 	Path string
@@ -393,6 +421,9 @@ func vhDiffV(a, b reflect.Value, path string, out *[]vhDelta) {
 	case t.ConvertibleTo(vhCellType) && t.Kind() == reflect.Struct:
 		ca := a.Convert(vhCellType).Interface().(boc.Cell)
 		cb := b.Convert(vhCellType).Interface().(boc.Cell)
+		if vhSameView(&ca, &cb) {
+			return
+		}
 		ta, tb := vhViewTree(&ca), vhViewTree(&cb)
 		if ta != tb {
 			diff("cell %s != %s", ta, tb)
